@@ -119,8 +119,26 @@ pub fn gen(tier: &str, r: &mut Rng) -> Vec<String> {
         let nchains = 1 + r.below(2);
         let mut seqs: Vec<(char, Vec<&str>)> = Vec::new();
         for ci in 0..nchains { let n = 1 + r.below(30); seqs.push(((b'A' + ci as u8) as char, (0..n).map(|_| *r.pick(&names)).collect())); }
+        let first_seqres = lines.len();
         for (ch, seq) in &seqs {
             for (k, chunk) in seq.chunks(13).enumerate() { lines.push(format!("SEQRES {:>3} {} {:>4}  {}", k + 1, ch, seq.len(), chunk.join(" "))); }
+        }
+        // the SEQRES records need not stand on consecutive lines: other records (or blank lines) between them,
+        // and the records of two chains taking turns
+        if r.chance(1, 3) {
+            for _ in 0..1 + r.below(3) {
+                let at = first_seqres + r.below(lines.len() - first_seqres + 1);
+                lines.insert(at, r.pick(&["REMARK   2 BETWEEN", "", "REMARK 300 X", "SEQADV 1ABC GLY Z    1  UNP  P12345              EXPRESSION TAG"]).to_string());
+            }
+        }
+        if nchains > 1 && r.chance(1, 4) {
+            // keep the order of each chain's own records, let the chains alternate
+            let block: Vec<String> = lines.drain(first_seqres..).collect();
+            let (mut a, mut b): (Vec<String>, Vec<String>) = block.into_iter().partition(|l| l.chars().nth(11) != Some('B'));
+            a.reverse(); b.reverse();
+            while !a.is_empty() || !b.is_empty() {
+                if !a.is_empty() && (b.is_empty() || r.chance(1, 2)) { lines.push(a.pop().unwrap()); } else { lines.push(b.pop().unwrap()); }
+            }
         }
         let mut serial = 0;
         for (ch, seq) in &seqs {
